@@ -1605,6 +1605,11 @@ class SymSlice(object):
     def __init__(self, lo, hi, step):
         self.start, self.stop, self.step = lo, hi, step
 
+    def pv_getattr(self, I, fr, name):
+        if name in ('start', 'stop', 'step'):
+            return getattr(self, name)
+        raise PyRaise(I.make_exc('AttributeError', name))
+
 
 class ExtModule(object):
     def __init__(self, name):
